@@ -107,6 +107,15 @@ CHECKS = {
     design_ref="DESIGN.md section 4 / C20",
     technique="Coq-verified sensitivity certificate + untrusted exact solver + per-model comparison of reported duals",
     note="Trusted: Coq kernel + vm_compute; Cert/Bridge.v translation; printers; Python comparison (1e-5). Only Clarabel reports duals among built-in solvers."),
+ "C09": dict(
+    category="proof",
+    text="Proved in Coq (axiom-free) for token lists of any length and any operator table whose prefix operators bind tightest: pest's Pratt loop returns exactly the unique tree satisfying the declarative "
+         "precedence-climbing predicate (soundness, completeness, uniqueness). Instantiated with the table REGENERATED from exp_parser.rs on every run; the property's sentences are corollaries checked against that table "
+         "(level order; a -> b <-> c = a -> (b <-> c); a <-> b -> c = (a <-> b) -> c; equal levels group left). Tie: thousands of texts with every alias spelling, prefixes and keyword-prefixed identifiers are parsed and transformed by the "
+         "implementation and compared structurally with the model's tree; implicit multiplication, aliases and keyword-prefixed identifiers are also evaluated directly. Genuine defect (trueish/falsey lexed as boolean literals) repaired.",
+    design_ref="DESIGN.md section 4 / C09",
+    technique="Coq proof over a fuelled model of pest's Pratt loop + operator table regenerated from source by a translator + structural correspondence on parsed texts",
+    note="Trusted: Coq kernel + vm_compute; tools/srcparams.py; harness text printer. pest's PEG front end (tokenisation, whitespace) is not modelled."),
  "C10": dict(
     category="proof",
     text="Coq theorems for all expressions and all real assignments: Exp::simplify (typed semantics) and Exp::flatten preserve the value; "
